@@ -109,6 +109,7 @@ struct Options {
     size_t max_body = 1 << 22;
     bool monitors = true;
     bool logs = false;         // keep log messages
+    unsigned long long flag_mask = 0; // transaction flag bits hidden in dumps (e.g. HTP_MULTI_PACKET_HEAD for C03)
 };
 struct Result {
     std::vector<Call> calls; std::vector<Event> events;
@@ -118,6 +119,8 @@ struct Result {
     std::vector<std::string> logs;
     std::map<int, long> trace_hits;      // OISF_LIBHTP_VERIF trace points seen (site -> count)
     std::string dump_all() const;        // all transaction dumps + connection flags
+    // per (transaction, direction) callback projection with consecutive data callbacks of one kind coalesced (C03)
+    std::string projection(int tx, int dir) const; // dir 0 request, 1 response, 2 transaction-level
     bool has_violation(const std::string &prefix) const;
 };
 
